@@ -248,7 +248,7 @@ Proof.
   - mrun. mfin. dsolve.
   - mrun. dcall vfs_checksum_ok.
     + intros e s' [-> H]. dsolve.
-    + intros crc s' ->. destruct (bytes_eqb crc (p_crc32 (d_p s))); mrun.
+    + intros crc s' ->. destruct (bytes_eqb crc (p_crc32 (d_p s)) && _); mrun.
       * mfin. dsolve.
       * dcall declare_fault_ok; [exact W | exact N | intros e s' H; exact H |].
         intros fh s' H. mrun. mfin. dsolve.
@@ -502,10 +502,13 @@ Proof.
   intros f o d s W N. unfold handle_fd_without_previous_metadata, tracker_add, rcfg_or_assert, add_packet. dauto.
 Qed.
 
-Lemma hewpm_ok : forall ck sz s, dest_wf s -> d_state s <> ST_IDLE ->
-  postx (fun _ s' => dest_wf s') E0 (handle_eof_without_previous_metadata ck sz s).
+Lemma hewpm_ok : forall c ck sz s, dest_wf s -> d_state s <> ST_IDLE ->
+  postx (fun _ s' => dest_wf s') E0 (handle_eof_without_previous_metadata c ck sz s).
 Proof.
-  intros ck sz s W N. unfold handle_eof_without_previous_metadata, tid_or_assert, prepare_eof_ack_packet, add_packet. dauto.
+  intros c ck sz s W N. unfold handle_eof_without_previous_metadata.
+  (* (F32 repair) an EOF (cancel) is handled like any other EOF (cancel) *)
+  destruct (negb (c =? C_NO_ERROR)); [apply handle_eof_pdu_ok; assumption|].
+  unfold tid_or_assert, prepare_eof_ack_packet, add_packet. dauto.
 Qed.
 
 Lemma idle_fsm_ok : forall pkt s, dest_wf s -> d_state s = ST_IDLE ->
